@@ -608,6 +608,15 @@ def build_session(case):
     W = World()
     for di, desc in enumerate(case["data"]):
         W.data.append(build_data(W, di, desc))
+    # "share": [[user, owner, k, seed], ...] - dataset `user` stores a component under the k-th main
+    # ComponentID of dataset `owner` (which may come later in the collection)
+    for user, owner, k, seed in case.get("share", []):
+        if user != owner and user < len(W.data) and owner < len(W.data):
+            du, do = W.data[user], W.data[owner]
+            mains = list(do.main_components)
+            if mains and mains[k % len(mains)] not in du.components:
+                du.add_component(values("f", seed, du.shape), mains[k % len(mains)])
+                W.use(du.get_component(mains[k % len(mains)]))
     W.dc = DataCollection(W.data)
     W.keep.append(W.dc)
     for l in case.get("links", []):
@@ -741,6 +750,8 @@ def snapshot(dc, full_access=False):
         joins.sort(key=repr)
         out.append([["label", tok(d.label)], ["uuid", tok(str(d.uuid))], ["shape"] + list(d.shape), ["comps"] + comps,
                     ["main"] + [tok(c.label) for c in d.main_components],
+                    # which dataset of the collection owns each ComponentID (shared ids keep their owner)
+                    ["own"] + [(datasets.index(c.parent) if c.parent in datasets else "N") for c in d.main_components],
                     ["derived"] + [tok(c.label) for c in d.derived_components],
                     ["pix"] + [tok(c.label) for c in d.pixel_component_ids],
                     ["world"] + [tok(c.label) for c in d.world_component_ids],
